@@ -49,6 +49,10 @@ func init() { runners["C04"] = runC04 }
 
 const c04Watchdog = 20 * time.Second
 
+// more than the granularity of the modification times of any backend (the host file system stamps
+// with a clock of a few milliseconds; memfs with time.Now())
+const c04Gap = 6
+
 // every position of a fault kind is tried when the fault-free run made at most this many calls of
 // the kind (more: first two, middle, last two)
 const c04EnumAll = 9
@@ -131,7 +135,8 @@ type c04Node struct {
 	Dir  bool   `json:"dir,omitempty"`
 	Data []byte `json:"-"`
 	Len  int    `json:"len"`
-	Tag  byte   `json:"tag"` // content = c04Content(Len, Tag)
+	Tag  byte   `json:"tag"`           // content = c04Content(Len, Tag)
+	Old  string `json:"old,omitempty"` // an older destination file: how it relates to the source file at the same path
 }
 
 func c04Content(n int, tag byte) []byte {
@@ -234,6 +239,46 @@ func c04GenTree(rng *RNG, maxNodes int, allowBig bool) []c04Node {
 		}
 	}
 	return out
+}
+
+// c04OldKinds: what a destination may hold where the copy is going to write a file, relative to the
+// source file: shorter, longer, and the states of EXACTLY the source's length - all bytes different,
+// one byte different (first / middle / last: the rest, the head and the size all agree), identical.
+var c04OldKinds = []string{"shorter", "longer", "samelen", "samelen-first", "samelen-mid", "samelen-last", "identical", "shorter", "longer", "samelen", "samelen-last"}
+
+// c04Old builds the older destination file of the given kind for the source file f at path p.
+func c04Old(f c04Node, p string, kind string, rng *RNG, tag byte) c04Node {
+	n := len(f.Data)
+	flip := func(k int) c04Node {
+		if n == 0 {
+			return c04Node{Path: p, Data: []byte{}, Old: "identical"}
+		}
+		d := append([]byte{}, f.Data...)
+		d[k] ^= 0x5a
+		return c04Node{Path: p, Data: d, Len: n, Tag: f.Tag, Old: fmt.Sprintf("%s@%d", kind, k)}
+	}
+	var o c04Node
+	switch kind {
+	case "shorter":
+		o = c04File(p, n/2, tag)
+	case "longer":
+		o = c04File(p, n+1+rng.Intn(30), tag)
+	case "samelen":
+		o = c04File(p, n, tag)
+		if n > 0 && string(o.Data) == string(f.Data) {
+			o = c04File(p, n, tag+1)
+		}
+	case "samelen-first":
+		return flip(0)
+	case "samelen-mid":
+		return flip(n / 2)
+	case "samelen-last":
+		return flip(n - 1)
+	default:
+		o = c04Node{Path: p, Data: append([]byte{}, f.Data...), Len: n, Tag: f.Tag}
+	}
+	o.Old = kind
+	return o
 }
 
 func c04TotalBytes(nodes []c04Node) int {
@@ -862,6 +907,8 @@ type c04Copy struct {
 	D         string    `json:"dst_path,omitempty"`
 	SrcRemote bool      `json:"src_via_remote"`
 	DstRemote bool      `json:"dst_via_remote"`
+	DstFirst  bool      `json:"dst_written_first,omitempty"` // the destination's old content is older than the source (else younger)
+	GapMs     int       `json:"gap_ms,omitempty"`            // pause between the two (fault-free runs only): the modification times differ on every backend
 	Variant   int       `json:"variant"`
 	Same      bool      `json:"same_instance,omitempty"` // source and destination are ONE filespace instance
 	Fixed     string    `json:"fixed,omitempty"`         // hand-built case (c04Fixed), not from the generator
@@ -1013,12 +1060,24 @@ func (c *c04Copy) run(armKind string, armK int) (r c04RunRes) {
 	src := c04New(c.SrcBE, c.Variant)
 	dst := src
 	if !c.Same {
-		dst = c04New(c.DstBE, c.Variant+1)
+		dst = c04New(c.DstBE, c.Variant+1+(c.Variant/16)%2) // two encrypted ends: every other time the same cipher
 		defer dst.cleanup()
 	}
 	defer src.cleanup()
-	src.populate(c.Src, c.SrcRemote)
-	dst.populate(c.Dst, c.DstRemote)
+	gap := func() {
+		if c.GapMs > 0 && armKind == "" {
+			time.Sleep(time.Duration(c.GapMs) * time.Millisecond)
+		}
+	}
+	if c.DstFirst {
+		dst.populate(c.Dst, c.DstRemote)
+		gap()
+		src.populate(c.Src, c.SrcRemote)
+	} else {
+		src.populate(c.Src, c.SrcRemote)
+		gap()
+		dst.populate(c.Dst, c.DstRemote)
+	}
 	r.srcLazy, r.dstMk = src.Lazy, dst.MkPar
 	var ok bool
 	if armKind == "" {
@@ -1210,6 +1269,8 @@ func c04GenCopy(seed uint64, tier string, idx int) *c04Copy {
 	c.DstBE = c04CopyBackends[pair%len(c04CopyBackends)]
 	c.Kind = []string{"copy", "copy", "copierdir", "copierdir", "stream", "copierfile"}[rng.Intn(6)]
 	c.SrcRemote, c.DstRemote = rng.Bool(), rng.Bool()
+	c.DstFirst = rng.Bool()
+	c.GapMs = []int{0, 0, c04Gap}[rng.Intn(3)]
 	tree := c04GenTree(rng, 15, true)
 	c.DstState = []string{"empty", "other", "overlap", "overlap", "other", "conflict", "empty"}[rng.Intn(7)]
 	// one instance as source AND destination (what fscache.Copy does with a Copier): the diagonal pairs
@@ -1255,14 +1316,8 @@ func c04GenCopy(seed uint64, tier string, idx int) *c04Copy {
 	if c.DstState == "overlap" || c.DstState == "conflict" {
 		for _, f := range files {
 			if rng.Chance(60) && addParents(f.Path) {
-				sz := len(f.Data) / 2
-				if rng.Bool() {
-					sz = len(f.Data) + 1 + rng.Intn(30)
-				}
-				if sz > 5000 {
-					sz = 5000
-				}
-				add(c04File(f.Path, sz, 200))
+				kind := c04OldKinds[rng.Intn(len(c04OldKinds))]
+				add(c04Old(f, f.Path, kind, rng, 200))
 			}
 		}
 		for _, d := range dirs {
@@ -1352,7 +1407,7 @@ func c04GenCopy(seed uint64, tier string, idx int) *c04Copy {
 					}
 					c.Dst = append(c.Dst, c04Node{Path: par, Dir: true})
 				}
-				c.Dst = append(c.Dst, c04File(c.D, len(f.Data)+13, 202))
+				c.Dst = append(c.Dst, c04Old(f, c.D, c04OldKinds[rng.Intn(len(c04OldKinds))], rng, 202))
 			}
 		}
 		if rng.Chance(4) {
@@ -1395,6 +1450,14 @@ func c04RunCopy(o *Out, c *c04Copy, tier string, budget *int) {
 	o.Stat("copy_pair_" + c.SrcBE + ">" + c.DstBE)
 	o.Stat("copy_dst_" + c.DstState)
 	o.Stat("copy_result_" + base.class)
+	for _, n := range c.Dst {
+		if n.Old != "" {
+			o.Stat("copy_old_" + strings.SplitN(n.Old, "@", 2)[0])
+		}
+	}
+	if len(c.Dst) > 0 && len(c.Src) > 0 {
+		o.Stat(fmt.Sprintf("copy_dst_written_first_%v_gap_%d", c.DstFirst, c.GapMs))
+	}
 	keyC := fmt.Sprintf("copy/%s/%s>%s/%d", c.Kind, c.SrcBE, c.DstBE, c.Seed)
 	fail := func(oracle, what string, cc c04Copy) { o.Fail(oracle, what, "C04-"+oracle, cc) }
 	if base.class == "harness" {
@@ -1664,7 +1727,8 @@ func runC04(o *Out, rng *RNG, tier string, replay string) {
 	o.Rule = "(a) Writer/Reader sessions: contents {0,1,15,300,4096,70000 bytes} x random chunkings (empty chunks included) x previous state {absent, shorter, longer, equal, directory, parent missing} " +
 		"x {memfs, diskfs, encryptfs/memfs, encryptfs/diskfs, cache/memfs (+Commit)}; readers with random buffer sizes incl. 0 and 1. " +
 		"(b) fshelper.StreamCopy, Copier.Do (file, directory), fshelper.Copy over all 16 ordered pairs of {mem, disk, enc(mem), cache(mem)}, generated trees (0-15 nodes, depth<=4, empty dirs/files, a 70 KB file), " +
-		"destination states {empty, other files, shorter/longer files at the same paths, file/directory conflicts}. (c) every call position of Reader/Writer/Read/Write/Close/MkdirAll/ReadDir failed once through a counting Filespace wrapper. " +
+		"destination states {empty, other files, files at the same paths that are shorter / longer / of exactly the source's length (all bytes, or one byte at the start, middle or end, different) / identical, written before or after the source with or without a pause, file/directory conflicts}; " +
+		"every copy entry point (fshelper.Copy, Copier directory / file, StreamCopy, the filespaces' own Copy / CopyDirectory / CopyFile, cache Commit) over such destinations in the scenarios old-first, old-later, restore (copy, damage the destination in place, copy again), update (copy, change the source in place, copy again). (c) every call position of Reader/Writer/Read/Write/Close/MkdirAll/ReadDir failed once through a counting Filespace wrapper. " +
 		"Non-trivial: every stream case; copy cases with a non-empty source. Distinct by (section, backend(s), parameters, fault position)."
 	if replay != "" {
 		if c04Replay(o, replay, tier) {
@@ -1685,6 +1749,7 @@ func runC04(o *Out, rng *RNG, tier string, replay string) {
 		c := c04GenCopy(rng.Next(), tier, i)
 		c04RunCopy(o, c, tier, &budget)
 	}
+	c04Overwrite(o, rng.Next(), tier)
 	o.Extra["runs_left_in_budget"] = budget
 	o.Stats["copy_malformed_path"] = o04Malformed
 }
@@ -1732,6 +1797,9 @@ func c04Replay(o *Out, file string, tier string) bool {
 	case "fixed":
 		budget := 100000
 		c04Fixed(o, raw.Case.Seed, tier, &budget)
+		return true
+	case "overwrite":
+		c04Overwrite(o, raw.Case.Seed, tier)
 		return true
 	}
 	return false
